@@ -410,6 +410,8 @@ static struct precalc_s {
 	long int N;
 
 	long int rS;
+	/* leap second correction, with the sign of the duration taken out */
+	long int corr;
 } precalc(durfmt_t f, struct dt_dtdur_s dur)
 {
 #define MINS_PER_DAY	(MINS_PER_HOUR * HOURS_PER_DAY)
@@ -444,6 +446,10 @@ static struct precalc_s {
 	with (int64_t S = __strf_tot_secs(dur), d = __strf_tot_days(dur)) {
 		us = d * (int)SECS_PER_DAY + S;
 		res.neg = dur.neg || us < 0;
+		/* we print magnitudes, so the correction loses its sign along
+		 * with the seconds it corrects */
+		res.corr = us >= 0
+			? __strf_tot_corr(dur) : -__strf_tot_corr(dur);
 		us = us >= 0 ? us : -us;
 	}
 
@@ -466,7 +472,7 @@ static struct precalc_s {
 		us %= SECS_PER_MIN;
 	}
 	if (f.has_sec) {
-		res.S = us + __strf_tot_corr(dur);
+		res.S = us + res.corr;
 	}
 	if (f.has_nano) {
 		if (dur.durtyp == DT_DURNANO) {
@@ -594,7 +600,7 @@ __strfdtdur(
 			long int S = pre.S;
 
 			if (UNLIKELY(spec.tai)) {
-				S += __strf_tot_corr(dur);
+				S += pre.corr;
 			}
 			bp += ltostr(bp, eo - bp, S, -1, DT_SPPAD_NONE);
 			if (bp < eo) {
@@ -607,7 +613,7 @@ __strfdtdur(
 			long int S = pre.S;
 
 			if (UNLIKELY(spec.tai)) {
-				S += __strf_tot_corr(dur);
+				S += pre.corr;
 			}
 			bp += ltostr(bp, eo - bp, S, 2, spec.pad);
 			break;
